@@ -27,7 +27,7 @@ func init() {
 			"termination is observed by the per-run watchdog (a hang makes the run inconclusive, with the case id in the worker's current-case file)",
 			"the prefix relation is event-for-event on (delta, canonical message bytes); a missing end-of-track at the end of the last track is a legitimate prefix",
 		},
-		Require: []string{"truncations", "truncation_results_ok_value", "truncation_results_error", "mutants", "random_strings", "targeted", "alloc_measurements", "reads_with_log", "big_payload_truncations", "proportionality_checks", "concurrent_truncation_files"},
+		Require: []string{"reads_after_failed_read", "sequence_failed_reads", "truncations", "truncation_results_ok_value", "truncation_results_error", "mutants", "random_strings", "targeted", "alloc_measurements", "reads_with_log", "big_payload_truncations", "proportionality_checks", "concurrent_truncation_files"},
 		UsesCur: true,
 		Run:     runC05,
 	})
@@ -309,6 +309,71 @@ func runC05(c *mon.Ctx) {
 			}
 		}
 		c.DistinctBytes([]byte(fmt.Sprint("big", i, n)))
+	})
+
+	// ---- a failed read followed by successful ones in the same process: the value returned by a later
+	// read must not contain anything of an earlier, interrupted one (payload sizes from a few hundred bytes
+	// to several MiB: buffers that a reader keeps or pools are size dependent)
+	seqSizes := []int{300, 4097, 70_000, 1 << 20, 1<<20 + 5000, 3 << 20}
+	c.Each("read-after-failed-read", int64(len(seqSizes)*len(seqSizes)), func(i int64, r *mon.Rand) {
+		mk := func(n int, fill byte) ([]byte, *ref.File) {
+			p := r.Bytes7(n)
+			for j := 0; j < len(p); j += 1000 {
+				p[j] = fill
+			}
+			var big []byte
+			if r.Bool() {
+				big = ref.Meta(0x7F, p)
+			} else {
+				big = append(append([]byte{0xF0}, p...), 0xF7)
+			}
+			tr := []ref.EncEv{{Ev: ref.Ev{Delta: 3, Msg: []byte{0x90, 1, fill}}}, {Ev: ref.Ev{Delta: 0, Msg: big}}, {Ev: ref.Ev{Delta: 9, Msg: []byte{0x80, 1, 0}}}, {Ev: ref.Ev{Delta: 0, Msg: ref.EOT}}}
+			f := &ref.EncFile{Format: 0, Division: 96, NTracks: -1, Tracks: [][]ref.EncEv{tr}}
+			return f.Bytes(nil), f.Truth()
+		}
+		nA, nB := seqSizes[int(i)/len(seqSizes)], seqSizes[int(i)%len(seqSizes)]
+		a, truthA := mk(nA, 0x11)
+		b, truthB := mk(nB, 0x22)
+		in := map[string]any{"file A": fmt.Sprintf("%d bytes, one payload of %d bytes", len(a), nA), "file B": fmt.Sprintf("%d bytes, one payload of %d bytes", len(b), nB)}
+		full := func(name string, data []byte, truth *ref.File, after string) bool {
+			s, err, panicked := k.read(data, "sequence", in, false)
+			c.Count("reads_after_failed_read", 1)
+			if panicked {
+				return false
+			}
+			if err != nil {
+				c.Violation("sequence-read-error", fmt.Sprintf("the complete, valid file %s is rejected when read %s: %v", name, after, err), in, nil, err.Error())
+				return false
+			}
+			if d := ref.EqualFiles(truth, fromLib(s)); d != "" {
+				c.Violation("sequence-content", fmt.Sprintf("the complete, valid file %s read %s differs from its content: %s", name, after, d), in, nil, nil)
+				return false
+			}
+			return true
+		}
+		cutRead := func(name string, data []byte, truth *ref.File, cut int) bool {
+			s, err, panicked := k.read(data[:cut], "sequence", in, false)
+			if panicked {
+				return false
+			}
+			if err != nil || s == nil {
+				c.Count("sequence_failed_reads", 1)
+				return true
+			}
+			if d := prefixOK(truth, fromLib(s), 1); d != "" {
+				c.Violation("truncation-fabricates", fmt.Sprintf("file %s truncated at %d (after earlier reads in the same process) reads without error but %s", name, cut, d), in, nil, nil)
+				return false
+			}
+			return true
+		}
+		_ = full("A", a, truthA, "first") &&
+			cutRead("A", a, truthA, len(a)-nA/2) &&
+			full("B", b, truthB, "after a read of A that was cut inside its payload") &&
+			cutRead("B", b, truthB, len(b)-3) &&
+			cutRead("B", b, truthB, 40+nB/3) &&
+			full("A", a, truthA, "after two cut reads of B") &&
+			full("B", b, truthB, "again")
+		c.DistinctBytes([]byte(fmt.Sprint("seq", nA, nB)))
 	})
 
 	// ---- structural counts (thorough): millions of empty unknown chunks in front of a track
